@@ -6,6 +6,17 @@
 
 package proxycore
 
+import (
+	"github.com/datastax/go-cassandra-native-protocol/frame"
+	"github.com/datastax/go-cassandra-native-protocol/message"
+	"github.com/datastax/go-cassandra-native-protocol/primitive"
+)
+
+var _ message.Message
+var _ *frame.Frame
+
+var _ primitive.OpCode // contracts name constants of package primitive
+
 // ---------------------------------------------------------------------------------------------
 // C15: round-robin load balancer and query plans
 // ---------------------------------------------------------------------------------------------
@@ -164,3 +175,165 @@ func verifHosts(l *roundRobinLoadBalancer) []*Host { return l.hosts.Load().([]*H
 //@   ensures result != nil ==> recv.$remaining == old(recv.$remaining) - 1
 //@   ensures result == nil ==> recv.$remaining == old(recv.$remaining)
 //@   modifies nothing, recv.$remaining
+
+// ---------------------------------------------------------------------------------------------
+// C02 / C01 / C08 / C17: backend connections - pending table, sending, receiving, closing
+// ---------------------------------------------------------------------------------------------
+
+// pendingRequests, abstractly: a partial map from backend stream ids [0, MaxStreams) to requests
+// ($has / $tag / $val) - the view of the sync.Map plus the free-list channel. store and
+// loadAndDelete are the (assumed, linearizable) operations that define the view.
+//@ type proxycore.pendingRequests
+//@   ghost $has bmap, $tag imap, $val imap
+
+//@ func proxycore.pendingRequests.store [C02]
+//@   trusted
+//@   requires p != nil
+//@   ensures result >= -1 && result < MaxStreams
+//@   ensures allocated: result >= 0 ==> !old(p.$has[result]) && p.$has[result] && p.$tag[result] == tagof(request) && p.$val[result] == valof(request)
+//@   ensures others: forall(s, 0, MaxStreams, s != result ==> p.$has[s] == old(p.$has[s]) && p.$tag[s] == old(p.$tag[s]) && p.$val[s] == old(p.$val[s]))
+//@   modifies nothing, p.$has, p.$tag, p.$val
+
+//@ func proxycore.pendingRequests.loadAndDelete [C01, C02]
+//@   trusted
+//@   requires p != nil
+//@   ensures found: 0 <= stream && stream < MaxStreams && old(p.$has[stream]) ==> tagof(result) == old(p.$tag[stream]) && valof(result) == old(p.$val[stream]) && result != nil && !p.$has[stream]
+//@   ensures missing: !(0 <= stream && stream < MaxStreams && old(p.$has[stream])) ==> result == nil
+//@   ensures others: forall(s, 0, MaxStreams, s != stream ==> p.$has[s] == old(p.$has[s]) && p.$tag[s] == old(p.$tag[s]) && p.$val[s] == old(p.$val[s]))
+//@   modifies nothing, p.$has, p.$tag, p.$val
+
+//@ type proxycore.ClientConn
+//@   immutable: conn, pending, eventHandler, preparedCache, logger, closingMu, codec
+//@   guarded_by closingMu: closing
+
+// Request callbacks re-enter the connection layer (a retried request is registered on another
+// connection, which takes that connection's closingMu): they must be called with no lock held.
+//@ iface proxycore.Request.OnClose [C01]
+//@   requires no-lock-held: nolocks()
+//@   modifies *
+//@ iface proxycore.Request.OnResult [C01]
+//@   requires no-lock-held: nolocks()
+//@   modifies *
+//@ iface proxycore.Request.Execute [C01]
+//@   requires no-lock-held: nolocks()
+//@   modifies *
+//@ iface proxycore.Request.Frame
+//@   modifies nothing
+//@ iface proxycore.EventHandler.OnEvent
+//@   modifies *
+//@ iface proxycore.PreparedCache.Load
+//@   modifies nothing
+//@ iface proxycore.PreparedCache.Store
+//@   modifies nothing
+//@ iface proxycore.Request.IsPrepareRequest
+//@   modifies nothing
+
+//@ func proxycore.pendingRequests.closing [C01]
+//@   trusted
+//@   requires p != nil
+//@   requires no-lock-held: nolocks()
+//@   modifies *
+
+// addToPending: under the read lock, a closing connection refuses; otherwise the request gets a
+// stream id that was free and now maps to exactly this request.
+//@ func proxycore.ClientConn.addToPending [C01, C02, C18]
+//@   requires c != nil && c.closingMu != nil && c.pending != nil
+//@   ensures registered: result1 == nil ==> result0 >= 0 && result0 < MaxStreams && !old(c.pending.$has[result0]) && c.pending.$has[result0] && c.pending.$val[result0] == valof(request) && c.pending.$tag[result0] == tagof(request)
+//@   ensures refused: result1 != nil ==> forall(s, 0, MaxStreams, c.pending.$has[s] == old(c.pending.$has[s]) && c.pending.$val[s] == old(c.pending.$val[s]))
+//@   ensures others: forall(s, 0, MaxStreams, s != result0 ==> c.pending.$has[s] == old(c.pending.$has[s]) && c.pending.$val[s] == old(c.pending.$val[s]) && c.pending.$tag[s] == old(c.pending.$tag[s]))
+//@   modifies nothing, c.pending.$has, c.pending.$tag, c.pending.$val
+
+// Closing: the connection is marked closing (no later registration succeeds) and every pending
+// request is told, with no connection lock held while the callbacks run.
+//@ func proxycore.ClientConn.Closing [C01, C18]
+//@   requires c != nil && c.closingMu != nil && c.pending != nil && nolocks()
+//@   modifies *
+
+// requestSender.Send: the frame goes out with the backend stream id allocated for it; nothing else
+// in the frame is written (C03: byte transparency except stream ids).
+//@ func proxycore.requestSender.Send [C02, C03]
+//@   local $rsFrame interface{} = nil
+//@   requires r != nil && r.conn != nil && r.conn.codec != nil && r.request != nil
+//@   after proxycore.Request.Frame#1 set $rsFrame = result
+//@   ensures raw-stream: typeis($rsFrame, *frame.RawFrame) && as($rsFrame, *frame.RawFrame) != nil && as($rsFrame, *frame.RawFrame).Header != nil ==> as($rsFrame, *frame.RawFrame).Header.StreamId == r.stream
+//@   ensures frame-stream: typeis($rsFrame, *frame.Frame) && as($rsFrame, *frame.Frame) != nil && as($rsFrame, *frame.Frame).Header != nil ==> as($rsFrame, *frame.Frame).Header.StreamId == r.stream
+//@   ensures other-frame-kinds-refused: !typeis($rsFrame, *frame.RawFrame) && !typeis($rsFrame, *frame.Frame) ==> result != nil
+//@   modifies any(frame.Header).StreamId
+
+// Send: register, then enqueue a sender carrying the allocated stream id.
+//@ func proxycore.ClientConn.Send [C01, C02]
+//@   local $sndStream int16 = 0
+//@   local $sndRegistered bool = false
+//@   requires c != nil && c.closingMu != nil && c.pending != nil && c.conn != nil
+//@   after proxycore.ClientConn.addToPending#1 set $sndStream = result0; $sndRegistered = (result1 == nil)
+//@   ensures not-registered-error: !$sndRegistered ==> result != nil
+//@   ensures registered: $sndRegistered ==> c.pending.$has[$sndStream] && c.pending.$val[$sndStream] == valof(request) && !old(c.pending.$has)[$sndStream]
+//@   modifies c.inflight, c.pending.$has, c.pending.$tag, c.pending.$val
+
+// Receive: a response goes to the request registered under its stream id - to that one only - and
+// the entry is removed; an unknown stream id is an error that closes only this connection.
+//@ func proxycore.ClientConn.Receive [C01, C02, C08, C17]
+//@   local $crDecoded bool = false
+//@   local $crStream int16 = 0
+//@   local $crOpCode primitive.OpCode = 0
+//@   local $crDelivered bool = false
+//@   local $crTarget int = 0
+//@   requires c != nil && c.pending != nil && c.codec != nil && c.conn != nil && c.closingMu != nil && nolocks()
+//@   after frame.RawCodec.DecodeRawFrame#1 set $crDecoded = (result1 == nil); $crStream = result0.Header.StreamId; $crOpCode = result0.Header.OpCode
+//@   before proxycore.Request.OnResult#1 set $crDelivered = true; $crTarget = valof(recv)
+//@   ensures undecodable: !$crDecoded ==> result != nil && !$crDelivered
+//@   ensures unknown-stream: $crDecoded && $crOpCode != primitive.OpCodeEvent && !(0 <= $crStream && $crStream < MaxStreams && old(c.pending.$has)[$crStream]) ==> result != nil && !$crDelivered
+//@   ensures delivered-to-owner: $crDelivered ==> 0 <= $crStream && $crStream < MaxStreams && old(c.pending.$has)[$crStream] && $crTarget == old(c.pending.$val)[$crStream]
+//@   ensures entry-removed: $crDecoded && $crOpCode != primitive.OpCodeEvent && 0 <= $crStream && $crStream < MaxStreams && old(c.pending.$has)[$crStream] ==> result == nil
+//@   ensures events-not-delivered: $crDecoded && $crOpCode == primitive.OpCodeEvent ==> !$crDelivered
+//@   modifies *, c.pending.$has, c.pending.$tag, c.pending.$val
+
+
+// C08: re-preparation. maybeCachePrepared remembers the PREPARE frame of a successful PREPARE;
+// maybePrepareAndExecute turns an UNPREPARED answer for a cached id into a PREPARE on this
+// connection followed by re-execution; prepareRequest re-executes exactly once, on the same host if
+// the PREPARE succeeded and on the next otherwise.
+//@ func proxycore.ClientConn.maybePrepareAndExecute [C08, C17]
+//@   local $mpDecoded bool = false
+//@   local $mpMsg message.Message = nil
+//@   local $mpCached bool = false
+//@   local $mpSent bool = false
+//@   local $mpSendOK bool = false
+//@   requires c != nil && c.pending != nil && c.codec != nil && c.conn != nil && c.closingMu != nil && c.preparedCache != nil && raw != nil && raw.Header != nil
+//@   after frame.RawCodec.ConvertFromRawFrame#1 set $mpDecoded = (result1 == nil); $mpMsg = result0.Body.Message
+//@   after proxycore.PreparedCache.Load#1 set $mpCached = result1
+//@   after proxycore.ClientConn.Send#1 set $mpSent = true; $mpSendOK = (result == nil)
+//@   ensures not-unprepared: !$mpDecoded || !typeis($mpMsg, *message.Unprepared) ==> !result && !$mpSent
+//@   ensures not-cached: $mpDecoded && typeis($mpMsg, *message.Unprepared) && !$mpCached ==> !result && !$mpSent
+//@   ensures re-prepared: $mpDecoded && typeis($mpMsg, *message.Unprepared) && $mpCached ==> $mpSent && result == $mpSendOK
+//@   modifies c.inflight, c.pending.$has, c.pending.$tag, c.pending.$val
+
+//@ func proxycore.prepareRequest.OnResult [C08]
+//@   local $prExecuted int = 0
+//@   local $prNext bool = false
+//@   requires r != nil && r.origRequest != nil && raw != nil && raw.Header != nil && nolocks()
+//@   before proxycore.Request.Execute#1 set $prExecuted = $prExecuted + 1; $prNext = arg0
+//@   ensures re-executed-once: $prExecuted == 1 && $prNext == (old(raw.Header.OpCode) == primitive.OpCodeError)
+//@   modifies *
+
+//@ func proxycore.prepareRequest.OnClose [C08, C01]
+//@   requires r != nil && r.origRequest != nil && nolocks()
+//@   modifies *
+
+// internalRequest.Execute must not take the process down (C17).
+//@ func proxycore.internalRequest.Execute [C17]
+//@   requires i != nil
+//@   modifies *
+
+// C18: ClientConn.codec is declared immutable (written once, before the reader goroutine is
+// started). Handshake is brought under contract only for the lock/immutability discipline.
+//@ func proxycore.ClientConn.SendAndReceive [C01]
+//@   requires c != nil && c.closingMu != nil && c.pending != nil && c.conn != nil
+//@   modifies c.inflight, c.pending.$has, c.pending.$tag, c.pending.$val
+
+//@ loop proxycore.ClientConn.Handshake #1
+//@   invariant i >= 0 && i % 2 == 0 && len(startupKeysAndValues) % 2 == 0
+
+//@ func proxycore.ClientConn.Handshake [C18, C17]
+//@   requires c != nil && c.closingMu != nil && c.pending != nil && c.conn != nil && c.codec != nil
+//@   modifies *, c.pending.$has, c.pending.$tag, c.pending.$val
